@@ -57,4 +57,7 @@ CHECKS = {
     "C12": dict(engine=_C, technique="runtime monitoring: reference-model oracle (harness tables) on generated set_value_for_assignment / join / projection calls",
                 text="Held on the executions observed: the updated relation differs from the original exactly at the assignment (dict and list form, int/float/huge-int tables) and the original buffer is untouched; join is over the union of scopes and equals u1+u2 on every assignment; projection is over scope minus x and equals min/max over x.",
                 note="Relations over <= 4 variables, domains <= 3; operands: matrix, python function, zero-ary."),
+    "C11": dict(engine=_C, technique="runtime monitoring: reference-model oracle over all relation kinds, all call forms and one-/multi-step slices, replicated under 5 PYTHONHASHSEED worker processes",
+                text="Held (except the listed known finding) on the executions observed: for each of the 13 relation constructions, keyword / positional (dimension order) / dict / list calls all return the table value, and every one-step and 2-3 step slice is a relation over exactly the remaining variables that agrees with the table on every completion, under hash seeds 0,1,2,3,12345.",
+                note="Relations over <= 4 variables, domains <= 3, variable lists permuted; per-process consistency is what is required under each hash seed."),
 }
